@@ -63,21 +63,23 @@ pub proof fn lemma_wm_step(a: HashMap<InternalKeyspaceId, EvictionWatermark>, b:
     }
 }
 
-//@extract src/recovery.rs :: recover_sealed_memtables as=sealed_replay world desugar_for_plain=0 desugar_for=1,2 props=C02+C03+C04+C10+C12
+//@extract src/recovery.rs :: recover_sealed_memtables as=sealed_replay world desugar_for_plain=0 desugar_for=1,2 props=C02+C03+C04+C10+C12+C11
 //@anchor for batch in reader
 //@sig fn sealed_replay(db: &Database, reader: JournalBatchReader, keyspaces_lock: &KsReadGuard, watermarks: &mut HashMap<InternalKeyspaceId, EvictionWatermark>) -> FjResult<()>
 //@contract
-    requires old(w).recovering, !old(w).active, reader.idx@ == 0, no_indirection(reader.emits@), ids_valid(reader.emits@), ascending(reader.emits@), resolve_is_identity(*old(w)),
+    requires !db.supervisor.seqno.is_visible@,
+        old(w).recovering, !old(w).active, reader.idx@ == 0, no_indirection(reader.emits@), ids_valid(reader.emits@), ascending(reader.emits@), resolve_is_identity(*old(w)),
         old(watermarks).keys@.len() == 0 && old(watermarks).vals@.len() == 0,
         // every rebuilt memtable of an earlier sealed journal has been sealed or thrown away (sealed_decide's postcondition)
         forall|k: u64| #![trigger old(w).trees[k]] old(w).trees.dom().contains(k) ==> old(w).trees[k].mem_max is None,
     ensures replay_frame(*old(w), *final(w)), // [C12:replay-touches-only-trees]
 //@loop 0
                 invariant
-                    w.recovering, !w.active, replay_frame(*old(w), *w), no_indirection(reader.emits@), ascending(reader.emits@), resolve_is_identity(*old(w)),
+                    w.recovering, !db.supervisor.seqno.is_visible@, !w.active, replay_frame(*old(w), *w), no_indirection(reader.emits@), ascending(reader.emits@), resolve_is_identity(*old(w)),
                     __fjx_it0.emits == reader.emits, __fjx_it0.idx@ == __fjx_n0, 0 <= __fjx_n0 <= reader.emits@.len(),
                     w.trees == replay_batches(*old(w), old(w).trees, reader.emits@, __fjx_n0), // [C02:replay-is-the-fold-of-the-emitted-batches]
                     ids_valid(reader.emits@), all_ids_below(reader.emits@, __fjx_n0, w.next_ks_id), // [C12:P-ID-counter-above-every-journaled-id]
+                    seqnos_below(reader.emits@, __fjx_n0, w.seqno), // [C11:counter-above-every-replayed-journal-record]
                     wm_inv(*watermarks, w.trees, if __fjx_n0 > 0 { reader.emits@[__fjx_n0 - 1].seqno } else { 0 }), // [C10:watermark-tops-every-rebuilt-memtable]
                 ensures __fjx_n0 == reader.emits@.len(),
                 decreases reader.emits@.len() - __fjx_n0,
@@ -87,12 +89,13 @@ pub proof fn lemma_wm_step(a: HashMap<InternalKeyspaceId, EvictionWatermark>, b:
             proof { assert(bv == reader.emits@[__fjx_n0 - 1]); if __fjx_n0 > 1 { assert(reader.emits@[__fjx_n0 - 2].seqno <= reader.emits@[__fjx_n0 - 1].seqno); } }
 //@loop 1
                     invariant
-                        w.recovering, !w.active, replay_frame(*old(w), *w), bv == reader.emits@[__fjx_n0 - 1], 0 < __fjx_n0 <= reader.emits@.len(), no_indirection(reader.emits@), ascending(reader.emits@), resolve_is_identity(*old(w)),
+                        w.recovering, !db.supervisor.seqno.is_visible@, !w.active, replay_frame(*old(w), *w), bv == reader.emits@[__fjx_n0 - 1], 0 < __fjx_n0 <= reader.emits@.len(), no_indirection(reader.emits@), ascending(reader.emits@), resolve_is_identity(*old(w)),
                         batch.seqno == bv.seqno, batch.cleared_keyspaces@ == bv.cleared,
                         0 <= __fjx_n1 <= bv.items.len(), __fjx_it1.remaining().len() == bv.items.len() - __fjx_n1,
                         forall|j: int| 0 <= j < __fjx_it1.remaining().len() ==> item_view(#[trigger] __fjx_it1.remaining()[j]) == bv.items[__fjx_n1 + j],
                         w.trees == replay_items(*old(w), t0, bv.items, __fjx_n1, bv.seqno), // [C03:every-item-of-the-batch-applied] [C12:unknown-ids-skipped-not-aborting]
                         ids_valid(reader.emits@), all_ids_below(reader.emits@, __fjx_n0 - 1, w.next_ks_id), ids_below(bv, __fjx_n1, 0, w.next_ks_id), // [C12:P-ID-counter-above-every-journaled-id]
+                        seqnos_below(reader.emits@, __fjx_n0, w.seqno), // [C11:counter-above-every-replayed-journal-record]
                         wm_inv(*watermarks, w.trees, bv.seqno), // [C10:watermark-tops-every-rebuilt-memtable]
                         __fjx_it0.emits == reader.emits, __fjx_it0.idx@ == __fjx_n0,
                         t0 == replay_batches(*old(w), old(w).trees, reader.emits@, __fjx_n0 - 1),
@@ -107,12 +110,13 @@ pub proof fn lemma_wm_step(a: HashMap<InternalKeyspaceId, EvictionWatermark>, b:
                     proof { assert(wm_updated(wm0, *watermarks, item.keyspace_id, batch.seqno, *handle)); lemma_wm_step(wm0, *watermarks, tr0, w.trees, item.keyspace_id, batch.seqno, false, *handle); }
 //@loop 2
                     invariant
-                        w.recovering, !w.active, replay_frame(*old(w), *w), bv == reader.emits@[__fjx_n0 - 1], 0 < __fjx_n0 <= reader.emits@.len(), no_indirection(reader.emits@), ascending(reader.emits@), resolve_is_identity(*old(w)),
+                        w.recovering, !db.supervisor.seqno.is_visible@, !w.active, replay_frame(*old(w), *w), bv == reader.emits@[__fjx_n0 - 1], 0 < __fjx_n0 <= reader.emits@.len(), no_indirection(reader.emits@), ascending(reader.emits@), resolve_is_identity(*old(w)),
                         batch.seqno == bv.seqno, batch.cleared_keyspaces@ == bv.cleared,
                         0 <= __fjx_n2 <= bv.cleared.len(), __fjx_it2.remaining().len() == bv.cleared.len() - __fjx_n2,
                         forall|j: int| 0 <= j < __fjx_it2.remaining().len() ==> *(#[trigger] __fjx_it2.remaining()[j]) == bv.cleared[__fjx_n2 + j],
                         w.trees == replay_clears(*old(w), replay_items(*old(w), t0, bv.items, bv.items.len() as int, bv.seqno), bv.cleared, __fjx_n2, bv.seqno), // [C04:clear-re-executed-on-replay]
                         ids_valid(reader.emits@), all_ids_below(reader.emits@, __fjx_n0 - 1, w.next_ks_id), ids_below(bv, bv.items.len() as int, __fjx_n2, w.next_ks_id), // [C12:P-ID-counter-above-every-journaled-id]
+                        seqnos_below(reader.emits@, __fjx_n0, w.seqno), // [C11:counter-above-every-replayed-journal-record]
                         wm_inv(*watermarks, w.trees, bv.seqno), // [C10:watermark-tops-every-rebuilt-memtable]
                         __fjx_it0.emits == reader.emits, __fjx_it0.idx@ == __fjx_n0,
                         t0 == replay_batches(*old(w), old(w).trees, reader.emits@, __fjx_n0 - 1),
@@ -129,6 +133,7 @@ pub proof fn lemma_wm_step(a: HashMap<InternalKeyspaceId, EvictionWatermark>, b:
     proof {
         assert(w.trees == replay_batches(*old(w), old(w).trees, reader.emits@, reader.emits@.len() as int)); // [C02:all-emitted-batches-replayed]
         assert(all_ids_below(reader.emits@, reader.emits@.len() as int, w.next_ks_id)); // [C12:P-ID-counter-above-every-journaled-id]
+        assert(seqnos_below(reader.emits@, reader.emits@.len() as int, w.seqno)); // [C11:counter-above-every-replayed-journal-record]
         // what sealed_decide requires of the watermark table (its stated precondition, now a consequence of the replay)
         assert(forall|j: int| 0 <= j < watermarks.vals@.len() ==> wm_ok(#[trigger] watermarks.vals@[j]) && w.trees.dom().contains(watermarks.vals@[j].keyspace.id)
             && (w.trees[watermarks.vals@[j].keyspace.id].mem_max is Some ==> w.trees[watermarks.vals@[j].keyspace.id].mem_max == Some(watermarks.vals@[j].lsn))); // [C10:watermark-tops-every-rebuilt-memtable] [C04:decision-slice-precondition-established]
